@@ -56,6 +56,16 @@ theorem within_frame_iff (p : V2) (r fy fx : ℚ) :
   unfold withinFrame Gen.within_axis
   simp only [Bool.and_eq_true, decide_eq_true_eq, ge_iff_le]
 
+/-- the margin band `r ≤ p < f - r` of an axis is non-empty exactly when `2 r < f`: a margin of "half the axis" leaves room
+as long as it is strictly less than half — for an odd axis `f = 2k + 1` and `k ≤ r < k + 1/2` the centre line is still inside
+(no shortcut may declare the band empty from `r ≥ f // 2`) -/
+theorem band_nonempty_iff (r f : ℚ) : (∃ p : ℚ, r ≤ p ∧ p < f - r) ↔ 2 * r < f := by
+  constructor
+  · rintro ⟨p, h1, h2⟩; linarith
+  · intro h; exact ⟨r, le_refl r, by linarith⟩
+
+example : Gen.within_axis 16 16 33 = true ∧ (33 : ℤ) / 2 = 16 := by decide +kernel
+
 /-- **`frame_peaks` returns exactly the index/coordinate pairs whose coordinate is in range, each
 coordinate being `zero + i·a + j·b` for its own index** -/
 theorem frame_peaks_spec (fy fx : ℚ) (zero a b : V2) (r : ℚ) (indices : List V2) (ij c : V2) :
